@@ -30,9 +30,10 @@ open StepupModel.K
 def runningRows (s : KState) : List Node := s.nodes.filter fun n => n.key.kind = .step ∧ n.sstate = .running
 /-- The keys written by `UPDATE step SET state = PENDING WHERE state = CHECKING`. -/
 def checkingRows (s : KState) : List Node := s.nodes.filter fun n => n.key.kind = .step ∧ n.sstate = .checking
-/-- `workflow.steps(FAILED)`: the attached FAILED steps, which are then marked pending. -/
+/-- `workflow.steps(FAILED, include_detached=True)`: the FAILED steps, attached or detached (a detached one
+comes back with its state when its creator is recycled), which are then marked pending. -/
 def failedRows (s : KState) : List Node :=
-  s.nodes.filter fun n => n.key.kind = .step ∧ !n.detached ∧ n.sstate = .failed
+  s.nodes.filter fun n => n.key.kind = .step ∧ n.sstate = .failed
 
 /-- The three stages of `resetInterrupted`, named. -/
 theorem reset_stages (s s' : KState) (h : s.resetInterrupted = .ok s') :
